@@ -253,4 +253,5 @@ def run(prog: Program, rep: Report, tier: str = "quick") -> None:
     from . import game
 
     game.add_instances(rep, game.c10_job, [(i, tier) for i in range(nn)], "R10.5", 14 * nn)
+    rep.arbitrate({"R10.1"}, "R10.5", "the value is a symmetric function of the teams and of each team's players")
     rep.supersede({"R10.1"}, "R10.5", "the value is a symmetric function of the teams and of each team's players")
